@@ -584,7 +584,8 @@ def float_case(ctx, E, rng, pool, B, T, tag):
     p = draw_leg_params(E, rng, ref_date(E, rng, pool))
     tele = rng.random() < 0.3     # draw a case that meets the telescoping conditions
     p['spread'] = 0.0 if tele else rng.choice([0.0, rng.uniform(-0.02, 0.03), 0.0025, -0.001])
-    p['principal'] = rng.choice([0.0, 0.0, 1.0, -1.0, 0.25])
+    # the final exchange of principal is requested through the constructor argument (honoured since f4e65d4)
+    p['principal'] = 0.0 if tele else rng.choice([0.0, 0.0, 0.0, 1.0, -1.0, 0.25])
     if tele:
         p['lag'] = 0
         p['dc'] = rng.choice([DT.ACT_360, DT.ACT_365F, DT.THIRTY_E_360, DT.ACT_ACT_ISDA, DT.ACT_ACT_ISDA, DT.THIRTY_360_BOND, DT.SIMPLE])
@@ -606,15 +607,12 @@ def float_case(ctx, E, rng, pool, B, T, tag):
         return 0
     if not check_tables(ctx, T, comp, leg, periods, case):
         return 0
-    # the constructor's `principal` argument
-    if leg.principal != p['principal']:
-        ctx.violation(f'{comp}: constructor drops its `principal` argument (leg.principal = {leg.principal})',
-                      dict(case, passed=p['principal'], stored=float(leg.principal)),
-                      finding='C06/float-leg-principal-ignored' if leg.principal == 0.0 else None,
-                      clause='principal-argument')
-    use_principal = (not tele) and rng.random() < 0.4
-    P = p['principal'] if use_principal else 0.0
-    leg.principal = P      # public attribute read by value()
+    # the constructor's `principal` argument must be what value() exchanges on the last payment date
+    P = p['principal']
+    if leg.principal != P:
+        ctx.violation(f'{comp}: constructor does not store its `principal` argument (leg.principal = {leg.principal})',
+                      dict(case, passed=P, stored=float(leg.principal)), clause='principal-argument')
+        return 0
     N = p['notional']
     n = len(periods)
     notionals = [N] * n
@@ -732,7 +730,6 @@ def float_case(ctx, E, rng, pool, B, T, tag):
     try:
         def twin(**kw):
             lg = mk_float(E, p, **kw)
-            lg.principal = P
             if notionals[0] != notionals[-1]:
                 kk = kw.get('notional', N) / N
                 lg.notional_array = [x * kk for x in notionals]
@@ -837,6 +834,10 @@ def swap_case(ctx, E, rng, pool, B, T, tag, kind=None):
             and check_tables(ctx, T, comp + '.float_leg', sw.float_leg, lper, case)):
         return 0
     N, cpn, spread = p['notional'], p['cpn'], p['spread']
+    if sw.fixed_leg.principal != 0.0 or sw.float_leg.principal != 0.0:   # IborSwap / OIS exchange no principal
+        ctx.violation(f'{comp}: a leg of the swap carries a principal exchange',
+                      dict(case, fixed=float(sw.fixed_leg.principal), float=float(sw.float_leg.principal)), clause='principal-argument')
+        return 0
     vd = draw_value_date(E, rng, p['eff'], [x[2] for x in fper])
     ffut = [x for x in fper if x[2] > vd]
     lfut = [x for x in lper if x[2] > vd]
@@ -925,11 +926,7 @@ def swap_case(ctx, E, rng, pool, B, T, tag, kind=None):
         else:
             e_sr = F / A
             rs = abs(e_sr) + math.fsum(abs(r[3]) for r in lrows) / abs(N) / abs(A) * 1e-3 + 1e-9
-            if kind == 'ois' and not fixedIsPay and esr is None and close(sr, -e_sr, rs) and not close(sr, e_sr, rs):
-                ctx.violation(f'{comp}: OIS.swap_rate has the wrong sign for a receive-fixed swap',
-                              dict(case, swap_rate=sr, expected=e_sr), finding='C06/ois-swap-rate-sign-receive-fixed',
-                              clause='swap_rate')
-            elif esr or not close(sr, e_sr, rs):
+            if esr or not close(sr, e_sr, rs):
                 ctx.violation(f'{comp}: swap_rate is not float leg PV / annuity', dict(case, swap_rate=sr, err=esr, expected=e_sr),
                               clause='swap_rate')
             # the swap struck at its own reported par rate is worth zero
@@ -937,11 +934,8 @@ def swap_case(ctx, E, rng, pool, B, T, tag, kind=None):
                 v_par, ep = call(lambda: val(build(sr)))
                 par_scale = scale + abs(sr * A * N)
                 if ep or not abs(v_par) <= 1e-9 * par_scale:
-                    f2 = None
-                    if kind == 'ois' and not fixedIsPay and ep is None and close(v_par, -2.0 * sgn * F * N, par_scale, 1e-8):
-                        f2 = 'C06/ois-swap-rate-sign-receive-fixed'
                     ctx.violation(f'{comp}: the swap struck at its own swap_rate is not worth zero',
-                                  dict(case, swap_rate=sr, value_at_par=v_par, err=ep), finding=f2, clause='par-rate-zeroes-value')
+                                  dict(case, swap_rate=sr, value_at_par=v_par, err=ep), clause='par-rate-zeroes-value')
                 T.add(comp + ':par-checked')
     if kind == 'ibor':
         try:
@@ -1344,10 +1338,7 @@ def witnesses(ctx, E):
         o = E.OIS(vd, '5Y', ST.RECEIVE, 0.02, FT.ANNUAL, DT.ACT_360)
         r, e = call(lambda: o.swap_rate(vd, crv))
         rp, _ = call(lambda: E.OIS(vd, '5Y', ST.PAY, 0.02, FT.ANNUAL, DT.ACT_360).swap_rate(vd, crv))
-        if e is None and rp is not None and close(r, -rp, 0.0, 1e-9) and rp > 0.02:
-            ctx.violation('witness: OIS.swap_rate of a receive-fixed OIS is minus the pay-fixed one', {'tag': 'witness/ois', 'rate': r},
-                          finding='C06/ois-swap-rate-sign-receive-fixed', clause='swap_rate')
-        elif e or not close(r, rp, 0.0, 1e-9):
+        if e or rp is None or not close(r, rp, 0.0, 1e-9) or not close(r, 0.030021405989532828, 0.0, 1e-9):   # repaired by 2a49ff7
             ctx.violation('witness: OIS.swap_rate differs between pay- and receive-fixed', {'tag': 'witness/ois', 'rate': r, 'pay': rp, 'err': e},
                           clause='swap_rate')
         # FRA
@@ -1381,9 +1372,16 @@ def witnesses(ctx, E):
             ctx.violation('witness: deposit values', {'tag': 'witness/deposit', 'values': vs}, clause='deposit-value')
         # float leg principal
         fl = E.SwapFloatLeg(vd, '2Y', ST.PAY, 0.0, FT.QUARTERLY, DT.ACT_360, 1e6, 1.0)
-        if fl.principal != 1.0:
+        if fl.principal != 1.0:      # repaired by f4e65d4
             ctx.violation('witness: SwapFloatLeg(principal=1.0).principal is not 1.0', {'tag': 'witness/principal', 'stored': fl.principal},
-                          finding='C06/float-leg-principal-ignored' if fl.principal == 0.0 else None, clause='principal-argument')
+                          clause='principal-argument')
+        else:
+            v1, e1 = call(lambda: fl.value(vd, crv, crv))
+            v0, e0 = call(lambda: E.SwapFloatLeg(vd, '2Y', ST.PAY, 0.0, FT.QUARTERLY, DT.ACT_360, 1e6).value(vd, crv, crv))
+            exp = -1e6 * float(crv.df(fl.payment_dts[-1]))      # PAY leg: minus notional x principal x df(last payment)
+            if e1 or e0 or not close(v1 - v0, exp, 1e6, 1e-10):
+                ctx.violation('witness: the principal passed to SwapFloatLeg is not exchanged on the last payment date',
+                              {'tag': 'witness/principal', 'with': v1, 'without': v0, 'expected_difference': exp}, clause='principal-argument')
         n = 8
     ctx.count('witnesses', n, n, sample={'what': 'witnesses of findings/C06.json replayed on the implementation'})
 
